@@ -883,6 +883,18 @@ class Engine:
             hnames = tuple(n_ for h in s.handlers for n_ in (["BaseException"] if h.type is None else [ast.unparse(x) for x in (h.type.elts if isinstance(h.type, ast.Tuple) else [h.type])]))
             outer = p.store.get(("handlers",), ())
             p.store[("handlers",)] = outer + (hnames,)
+            # EAFP attribute probe `try: ... = X.attr  except AttributeError: ...` is the LBYL test hasattr(X, 'attr'): the body runs under the
+            # guard, the AttributeError handler under its negation (so later reads of X are narrowed the same way in both spellings)
+            probe = None
+            if len(s.body) == 1 and isinstance(s.body[0], (ast.Assign, ast.AnnAssign, ast.Expr, ast.Return)) and getattr(s.body[0], "value", None) is not None:
+                v_ = s.body[0].value
+                if isinstance(v_, ast.Attribute) and isinstance(v_.ctx, ast.Load) and any(n_.split(".")[-1] == "AttributeError" for n_ in hnames):
+                    try:
+                        probe = (("call", "hasattr", (self.ev(v_.value, p, fr), ("c", v_.attr)), s.lineno), v_.attr)
+                    except (Unsupported, NeedFork):
+                        probe = None
+            if probe is not None:
+                p.guards.append((probe[0], True, s.lineno))
             body = self.block(s.body, [p], fr)
             for q in body:
                 q.store[("handlers",)] = outer
@@ -917,6 +929,8 @@ class Engine:
             for h in s.handlers:
                 q = entry.clone()
                 q.guards.append((("exc", ast.unparse(h.type) if h.type else "BaseException", s.lineno), True, h.lineno))
+                if probe is not None and h.type is not None and ast.unparse(h.type).split(".")[-1] == "AttributeError":
+                    q.guards.append((probe[0], False, h.lineno))
                 if h.name:
                     q.store[("l", fr["id"], h.name)] = ("excval", ast.unparse(h.type) if h.type else "BaseException", s.lineno)
                 out.extend(self.block(h.body, [q], fr))
